@@ -49,8 +49,12 @@ func init() {
 		Exec: func(r *simk.Run) *simk.Violation {
 			return runBlock(r, focus{prop: "C05", headerFaults: 0.01, txFaults: 0.01, permFaults: 0.6, failOps: 0.05, tightUnits: 0.01, bigCosts: 0.0, dupTx: 0.0, maxTxs: 5})
 		}})
-	register(&simk.Prop{ID: "C12", Level: "exploration", Rule: e2Rule + "; focus: unit costs incl. overflow-inducing values, per-dimension limits at sum-1/sum/sum+1, duplicate key declarations across actions and sponsor", Real: e2Real, Stub: e2Stub,
+	register(&simk.Prop{ID: "C12", Level: "exploration", Rule: e2Rule + "; focus: unit costs incl. overflow-inducing values, per-dimension limits at sum-1/sum/sum+1, duplicate key declarations across actions and sponsor; 1/3 of the runs build a block from a mempool under tight per-dimension limits (skip/stop paths) and re-verify it", Real: e2Real, Stub: e2Stub,
 		Exec: func(r *simk.Run) *simk.Violation {
+			if r.C.Intn(3) == 0 {
+				// the builder half: a transaction that does not fit must leave the block's consumption unchanged
+				return buildScenario(r, "C12", 0.9)
+			}
 			return runBlock(r, focus{prop: "C12", headerFaults: 0.01, txFaults: 0.01, permFaults: 0.1, failOps: 0.05, tightUnits: 0.5, bigCosts: 0.25, dupTx: 0.0, maxTxs: 6})
 		}})
 	register(&simk.Prop{ID: "C10", Level: "exploration", Rule: e2Rule + "; focus: expiry at t-1000, t, t+W, t+W+1000, misaligned, wrong chain id, action count at the limit +-1, activation ranges with -1 sentinels and boundary equalities", Real: e2Real, Stub: e2Stub,
